@@ -1222,3 +1222,42 @@ func TestC14LoopEnum(t *testing.T) {
 			return checkC14Loop(e.toCase(), o)
 		})
 }
+
+// ---- C04 inside the real loop: an application's deletion is never undone by syncing ----
+
+func TestC04LoopEnum(t *testing.T) {
+	points := loopYieldPoints[:nMainPoints]
+	vcore.RunEnum(t, vcore.Config{Property: "C04", Inflight: true,
+		Rule: "enumeration: the fixed scenario of TestC03Enum with the application DELETING a key (alone, or together with other changes) at EVERY yield point x {native, shadow} x {plain, another commit precedes, second life that still waits for its own snapshot, transaction held open while the loop runs on, peer snapshot that changes nothing, tomb sweeper configured with stale peer markers}: after every yield the deleted key is absent from the application's view (shadow mode) / held as a deletion marker (native), and when the loop is idle the newest own snapshot carries the deletion; non-trivial = the deletion fell between two LS transactions of one iteration"},
+		func(yield func(enumLoop) bool) {
+			for _, native := range []bool{true, false} {
+				for _, p := range points {
+					for _, k := range []string{"delete", "multi"} {
+						for _, e := range []enumLoop{
+							{},
+							{LocalFirst: true},
+							{OwnAtStart: true},
+							{Held: true},
+							{PeerNoop: true},
+							{LocalFirst: true, Sweeper: true},
+						} {
+							e.Native, e.Point, e.Kind = native, p, k
+							if !yield(e) {
+								return
+							}
+						}
+					}
+				}
+			}
+		},
+		func(e enumLoop, o *vcore.Obs) error {
+			c := e.toCase()
+			st, err := runLoopCase(c, o)
+			classifyLoop(c, st, o)
+			if err != nil {
+				return err
+			}
+			o.NonTrivial(st.appBetween)
+			return nil
+		})
+}
